@@ -25,7 +25,7 @@ RULE = ("Streams are built by an independent RFC 8323 framer from message sequen
         "boundaries and the max-message-size limit (+-1); malformed frames (TKL>8, option nibble 15, "
         "truncated options, invalid UTF-8, oversize announcements, garbage) are inserted at every "
         "position (<= 50 % of sessions). Each stream is cut exhaustively into all chunkings when it is "
-        "short (<= 11 bytes), otherwise whole / single bytes / every 2-cut around the headers / random "
+        "short (<= 11 bytes; 14 in the thorough tier), otherwise whole / single bytes / every 2-cut around the headers / random "
         "cuts. A case is non-trivial when the connection did something beyond its initial CSM; "
         "distinct by (max size, chunk list).")
 TRUSTED = ["fake asyncio.Transport and recording token manager (harness/c15_sim.py); "
@@ -41,6 +41,7 @@ KNOWN_UINT = [6, 7, 12, 13, 14, 16, 17, 23, 27, 28, 60, 258]
 KNOWN_OPAQUE = [1, 4, 5, 9, 19, 21, 31, 252, 292, 548]
 UNKNOWN = [2, 10, 18, 22, 40, 65, 300, 2049, 65000, 65001]
 DEFAULT_MAX = 1024 * 1024
+N_EXHAUSTIVE = 0
 
 CSM0 = o_frame(225, b"", b"")
 
@@ -105,7 +106,7 @@ def gen_code(rng):
         return 0
     if r < 0.80:
         return rng.choice([31, 32, 63, 192, 223, 20])      # class borders / reserved classes
-    if r < 0.97:
+    if r < 0.985:
         return rng.choice([225, 226, 226, 227, 228, 229])
     return rng.choice([224, 230, 255])
 
@@ -358,14 +359,18 @@ def exhaustive_sessions(env):
         CSM0 + b"\xf0\xff\xff\xff\xff",                  # oversize announcement
     ]
     cases = []
+    global N_EXHAUSTIVE
+    N_EXHAUSTIVE = len(streams) + 2
+    limit = env.scale(11, 14)
     for s in streams:
-        if len(s) > 11:
-            s = s[:11]
+        if env.thorough:
+            s = s + ping + empty + get1
+        s = s[:limit]
         for chunks in all_chunkings(s):
             cases.append(session_case(DEFAULT_MAX, chunks, tag="exhaustive"))
     # small max size, so that the limit is hit inside short streams
     for s in (CSM0 + o_frame(1, b"", b"\xffabc") + get1, CSM0 + get1 + o_frame(1, b"\x01\x02", b"\xffab")):
-        for chunks in all_chunkings(s[:11]):
+        for chunks in all_chunkings(s[:limit]):
             cases.append(session_case(6, chunks, tag="exhaustive"))
     return cases
 
@@ -376,8 +381,8 @@ def random_sessions(env, n):
     for _ in range(n):
         maxsize = rng.choice([DEFAULT_MAX] * 6 + [64, 300, 2000])
         nmsg = rng.choice([1, 2, 3, 4, 6])
-        malformed_at = rng.randrange(nmsg + 1) if rng.random() < 0.4 else None
-        have_csm = rng.random() < 0.9
+        malformed_at = rng.randrange(nmsg + 1) if rng.random() < 0.25 else None
+        have_csm = rng.random() < 0.96
         parts = []
         if have_csm:
             parts.append(o_frame(225, b"", o_body(gen_opts(rng, signalling=True, critical_ok=rng.random() < 0.05), b"")))
@@ -385,7 +390,7 @@ def random_sessions(env, n):
             if malformed_at == i:
                 parts.append(gen_malformed(rng, maxsize)[0])
             bl = rng.choice(BODY_BOUNDS[:10]) if rng.random() < 0.25 else None
-            parts.append(frame_of(gen_message(rng, bl, critical_ok=rng.random() < 0.1)))
+            parts.append(frame_of(gen_message(rng, bl, critical_ok=rng.random() < 0.05)))
         if malformed_at == nmsg:
             parts.append(gen_malformed(rng, maxsize)[0])
         if rng.random() < 0.1:
@@ -453,6 +458,8 @@ def run_S(aiocoap, tcp, case):
             conn._send_message(msg)
         except ValueError:
             return "err", fields, None
+        except Exception as e:
+            return "exception:" + type(e).__name__, fields, None
     if len(events) != 1 or events[0][0] != "W":
         return "events:" + sim.render_events(events), fields, None
     return render(events[0][1]), fields, events[0][1]
@@ -500,6 +507,7 @@ def x_cases(env):
 
 
 def utf8_table():
+    """byte sequences around every boundary of the UTF-8 automaton (RFC 3629)"""
     leads = [0x7f, 0x80, 0xbf, 0xc0, 0xc1, 0xc2, 0xdf, 0xe0, 0xe1, 0xec, 0xed, 0xee, 0xef, 0xf0, 0xf1, 0xf3, 0xf4, 0xf5, 0xff]
     seconds = [0x7f, 0x80, 0x8f, 0x90, 0x9f, 0xa0, 0xbf, 0xc0]
     later = [0x7f, 0x80, 0xbf, 0xc0]
@@ -507,8 +515,12 @@ def utf8_table():
         yield bytes([a])
         for b in seconds:
             yield bytes([a, b])
+            if a < 0xdf:
+                continue
             for c in later:
                 yield bytes([a, b, c])
+                if a < 0xef:
+                    continue
                 for d in later:
                     yield bytes([a, b, c, d])
 
@@ -525,8 +537,8 @@ def d_cases(env):
             cases.append((o_frame(2, b"\x01", sim.o_options([(n, v)]) + b"\xffp"), "format-table"))
     for tkl in range(16):
         cases.append((bytes([tkl, 1]) + bytes(tkl), "tkl"))
-    for _ in range(env.scale(400, 8000)):
-        if rng.random() < 0.6:
+    for _ in range(env.scale(3000, 40000)):
+        if rng.random() < 0.8:
             cases.append((frame_of(gen_message(rng, critical_ok=True)), "random"))
         else:
             body = bytes(rng.randrange(256) for _ in range(rng.randrange(0, 10)))
@@ -599,9 +611,18 @@ def glue_sessions(env, aiocoap, tcp, rep):
             fin = o_frame(rng.choice([228, 229]), b"", b"")
             stream = resp + fin
             cut = rng.randrange(1, len(stream))
+            escaped = None
             for ch in (stream[:cut], stream[cut:]):
                 if not transport.closed:
-                    conn.data_received(ch)
+                    try:
+                        conn.data_received(ch)
+                    except Exception as e:
+                        escaped = type(e).__name__
+                        break
+            if escaped:
+                rep.oracle_fail(case, "exception %s escaped data_received (response + Release cut at %d)" % (escaped, cut),
+                                key="tcp-exception-escaped:" + escaped)
+                continue
             if transport.closed:
                 conn.connection_lost(None)
         for idx, (msg, got) in enumerate(pipes):
@@ -632,7 +653,7 @@ def run(env, rep):
     # ---- F: sessions
     corpus = [c for _, c in load_corpus("C15") if c.get("kind") == "F"]
     cases = corpus + boundary_sessions(env) + exhaustive_sessions(env) + big_sessions(env) \
-        + random_sessions(env, env.scale(700, 15000))
+        + random_sessions(env, env.scale(2000, 60000))
     for c in cases:
         if c["maxsize"] == DEFAULT_MAX:
             c["maxsize"] = real_max
@@ -665,7 +686,7 @@ def run(env, rep):
             rep.oracle_fail({"kind": "F", "maxsize": case["maxsize"], "chunks": case["chunks"],
                              "client": case.get("client", False)}, verdict, key=key)
     compare(env, rep, cases, lines, impl, what="session")
-    rep.exhaustive_parts.append("all chunkings of %d short streams (<= 11 bytes)" % 17)
+    rep.exhaustive_parts.append("all chunkings (2^(n-1) each) of %d short streams (n <= %d bytes)" % (N_EXHAUSTIVE, env.scale(11, 14)))
     # distribution gates (only meaningful when model and implementation agree; a disagreement is
     # reported by ./check and must not be masked by a harness error)
     if not rep.disagreements and not rep.oracle_failures:
@@ -683,7 +704,14 @@ def run(env, rep):
     lines, impl = [], []
     for b in xs:
         lines.append("C15 X " + spec(b))
-        r = tcp._extract_message_size(b)
+        try:
+            r = tcp._extract_message_size(b)
+        except Exception as e:
+            impl.append("exception:" + type(e).__name__)
+            rep.case({"kind": "X", "data": b.hex()}, nontrivial=True)
+            rep.oracle_fail({"kind": "X", "data": b.hex()}, "_extract_message_size(%s) raised %s" % (b.hex(), type(e).__name__),
+                            key="tcp-extract-size")
+            continue
         impl.append("none" if r is None else "%d %d %d" % r)
         rep.case({"kind": "X", "data": b.hex()}, nontrivial=r is not None, sample_every=4000)
         rep.count("X:" + ("none" if r is None else "ext%d" % (r[0] - 2)))
@@ -694,12 +722,19 @@ def run(env, rep):
     compare(env, rep, xs, lines, impl, what="extract_message_size")
 
     # ---- L: _encode_length
-    ls = sorted(set(b + d for b in (0, 12, 13, 268, 269, 65804, 65805, 1 << 20, 65805 + (1 << 24)) for d in (-2, -1, 0, 1, 2) if b + d >= 0)) \
+    ls = sorted(set(list(range(0, 16)) + [b + d for b in (0, 12, 13, 268, 269, 65804, 65805, 1 << 20, 65805 + (1 << 24)) for d in (-2, -1, 0, 1, 2) if b + d >= 0])) \
         + [env.rng.randrange(0, 200000) for _ in range(env.scale(100, 2000))]
     lines, impl = [], []
     for n in ls:
         lines.append("C15 L %d" % n)
-        nib, ext = tcp._encode_length(n)
+        try:
+            nib, ext = tcp._encode_length(n)
+        except Exception as e:                      # an exception is an observation
+            impl.append("exception:" + type(e).__name__)
+            rep.case({"kind": "L", "n": n}, nontrivial=True)
+            rep.oracle_fail({"kind": "L", "n": n}, "_encode_length(%d) raised %s" % (n, type(e).__name__),
+                            key="tcp-encode-length")
+            continue
         impl.append("%d %s" % (nib, render(ext)))
         rep.case({"kind": "L", "n": n}, nontrivial=True, sample_every=1000)
         rep.count("L:nibble=%d" % nib)
@@ -794,11 +829,17 @@ def replay(env, case):
         return judge_F(aiocoap, case, events, stream)[0]
     if k == "X":
         b = bytes.fromhex(case["data"])
-        r = tcp._extract_message_size(b)
+        try:
+            r = tcp._extract_message_size(b)
+        except Exception as e:
+            return "_extract_message_size(%s) raised %s" % (b.hex(), type(e).__name__)
         h = sim.o_header(b, 0)
         return "" if (r is None and h is None) or (r is not None and tuple(r) == h) else "_extract_message_size(%s) = %r, RFC 8323 says %r" % (b.hex(), r, h)
     if k == "L":
-        nib, ext = tcp._encode_length(case["n"])
+        try:
+            nib, ext = tcp._encode_length(case["n"])
+        except Exception as e:
+            return "_encode_length(%d) raised %s" % (case["n"], type(e).__name__)
         return "" if bytes([nib << 4]) + ext == _hdr(case["n"], 0) else "_encode_length(%d) = (%d, %s)" % (case["n"], nib, ext.hex())
     if k == "D":
         fr = unspec(case["frame"])
